@@ -82,7 +82,7 @@ pub fn apply_config(s: &mut StructDecl, cfg: usize) {
             if s.tr8 == Trait::FromMeta {
                 s.from_word = true;
                 s.from_none = true;
-            } else if s.tr8 != Trait::FromAttributes && s.tr8 != Trait::FromField {
+            } else if s.tr8 != Trait::FromAttributes {
                 s.from_ident = true;
             }
             s.rule = Rule::Pascal;
@@ -154,6 +154,12 @@ pub fn deep_programs() -> Vec<Program> {
         let child = StructDecl::new(Trait::FromMeta, vec![mk("s", "self", Ty::U32), mk("u", "Self", Ty::OptU32)]);
         let root = StructDecl::new(Trait::FromMeta, vec![mk("c", "crate", Ty::U32), mk("p", "super", Ty::OptU32), Field::new("inner", Ty::Struct(1)), Field::new("plain", Ty::OptU32)]);
         out.push(Program { decls: vec![Decl::Struct(root), Decl::Struct(child)], root: 0, family: "deep keyword-names".into() });
+    }
+    // members that are raw identifiers: the attribute name is the identifier as written (`r#type`)
+    {
+        let child = StructDecl::new(Trait::FromMeta, vec![Field::new("r#mod", Ty::U32), Field::new("r#ref", Ty::OptU32)]);
+        let root = StructDecl::new(Trait::FromMeta, vec![Field::new("r#type", Ty::U32), Field::new("r#fn", Ty::OptU32), Field::new("inner", Ty::Struct(1)), Field::new("kind", Ty::OptU32)]);
+        out.push(Program { decls: vec![Decl::Struct(root), Decl::Struct(child)], root: 0, family: "deep raw-names".into() });
     }
     // many members: 9 and 17 (required / optional / multiple in rotation)
     for n in [9usize, 17] {
@@ -335,13 +341,15 @@ pub fn field_items(prog: &Program, s: &StructDecl, f: &Field) -> Vec<Item> {
             Item::list(&name, vec![Item::nv("k", "1"), Item::nv("j", "2")]),
             Item::list(&name, vec![Item::nv("k", "1"), Item::nv("k", "2")]),
             Item::list(&name, vec![Item::nv("k", "\"x\""), Item::lit("\"lit\""), Item::nv("k", "3")]),
+            Item::list(&name, vec![Item::nv("k", "1"), Item::lit("-2.5"), Item::nv("j", "3")]),
             Item::word(&name),
         ],
     }
 }
 
 pub fn level_wide_items() -> Vec<Item> {
-    vec![Item::nv("zz", "1"), Item::lit("\"lit\""), Item::list("zz", vec![Item::word("a")])]
+    // a negative number is one literal item although it is two tokens
+    vec![Item::nv("zz", "1"), Item::lit("\"lit\""), Item::list("zz", vec![Item::word("a")]), Item::lit("-5")]
 }
 
 pub fn root_alphabet(prog: &Program) -> Vec<Item> {
@@ -468,6 +476,24 @@ pub fn enum_corpus(thorough: bool) -> Vec<Program> {
             .collect();
         out.push(Program { decls: vec![Decl::Enum(EnumDecl { rule: None, from_word: false, from_none: false, allow_unknown: None, variants })], root: 0, family: format!("enum many-variants {n}") });
     }
+    // a skipped variant does not occupy its name: a later variant with the same effective name
+    // (by rename, or by the case rule) is the one selected
+    for rule in [None, Some(Rule::Snake)] {
+        let variants = vec![
+            Variant { rust: "Legacy".into(), rename: if rule.is_none() { Some("legacy".into()) } else { None }, skip: true, word: None, body: VBody::Unit },
+            Variant { rust: "Compat".into(), rename: Some("legacy".into()), skip: false, word: None, body: VBody::Unit },
+            Variant { rust: "OldCustom".into(), rename: Some("custom".into()), skip: true, word: None, body: VBody::Newtype(Ty::U32) },
+            Variant { rust: "Tuned".into(), rename: Some("custom".into()), skip: false, word: None, body: VBody::Struct(vec![Field::new("gain", Ty::U32), Field::new("q", Ty::OptU32)]) },
+            Variant { rust: "Fast".into(), rename: None, skip: false, word: None, body: VBody::Unit },
+            Variant { rust: "Gone".into(), rename: Some("num".into()), skip: true, word: None, body: VBody::Struct(vec![Field::new("x", Ty::U32)]) },
+            Variant { rust: "Num".into(), rename: Some("num".into()), skip: false, word: None, body: VBody::Newtype(Ty::U32) },
+        ];
+        out.push(Program {
+            decls: vec![Decl::Enum(EnumDecl { rule, from_word: false, from_none: false, allow_unknown: None, variants })],
+            root: 0,
+            family: format!("enum skipped-name-reused cfg({rule:?})"),
+        });
+    }
     // irregular variant names under every case rule: underscores and digits inside, runs of capitals
     for rule in std::iter::once(None).chain(Rule::ALL.into_iter().filter(|r| *r != Rule::None).map(Some)) {
         let variants = vec![
@@ -582,6 +608,16 @@ pub fn attr_corpus(thorough: bool) -> Vec<Program> {
                 pool[0] = Decl::Struct(s);
                 out.push(Program { decls: pool, root: 0, family: format!("attrs {} names={:?} fwd={:?}", t.name(), names, fwd) });
             }
+        }
+    }
+    // receivers whose members can each be given once (no `multiple`, no flatten, nothing
+    // forwarded): once every member has a value, later attributes are still read and judged
+    for t in [Trait::FromDeriveInput, Trait::FromField, Trait::FromVariant, Trait::FromTypeParam, Trait::FromAttributes] {
+        for fields in [vec![Field::new("alpha", Ty::U32), Field::new("gamma", Ty::OptU32)], vec![Field::new("alpha", Ty::U32)]] {
+            let n = fields.len();
+            let mut s = StructDecl::new(t, fields);
+            s.attrs = vec!["a".into(), "b".into()];
+            out.push(Program { decls: vec![Decl::Struct(s)], root: 0, family: format!("attrs {} names=[a, b] single-valued members={n}", t.name()) });
         }
     }
     // receivers whose only addressable member is a flatten member (every item of every attribute
@@ -1009,7 +1045,7 @@ pub fn wide_corpus(thorough: bool) -> Vec<Program> {
                 let dflt = [Dflt::None, Dflt::Trait, Dflt::Fn][i % 3];
                 let tr = [Tr::None, Tr::Map, Tr::AndThen][(i / 2) % 3];
                 push(t, *rule, dflt, tr, if i % 2 == 0 { None } else { Some(true) }, false);
-                if t != Trait::FromAttributes && t != Trait::FromField {
+                if t != Trait::FromAttributes {
                     push(t, *rule, Dflt::None, Tr::None, None, true);
                 }
             }
@@ -1022,6 +1058,8 @@ pub fn wide_corpus(thorough: bool) -> Vec<Program> {
         push(Trait::FromDeriveInput, Rule::Lower, Dflt::Fn, Tr::None, None, false);
         push(Trait::FromVariant, Rule::Camel, Dflt::None, Tr::Map, None, true);
         push(Trait::FromField, Rule::None, Dflt::Trait, Tr::None, Some(true), false);
+        push(Trait::FromField, Rule::Kebab, Dflt::None, Tr::None, None, true);
+        push(Trait::FromDeriveInput, Rule::None, Dflt::None, Tr::Map, None, true);
         push(Trait::FromTypeParam, Rule::Snake, Dflt::None, Tr::AndThen, None, false);
         push(Trait::FromAttributes, Rule::Pascal, Dflt::Fn, Tr::None, None, false);
     }
